@@ -221,8 +221,19 @@ let dispatch op r =
        | e -> put_res put_vec e)
   | o -> put_w ("MODELERR unknown_op_" ^ o)
 
-let handler r =
-  try
+(* `amb K (name L tok_1 .. tok_L)*K <request>`: K calls of other facilities of the library before the request.  The extracted
+   amb_answer runs foreign_run on the calls and hands the request the control state they leave and the one the process started
+   with; the model's arithmetic (fops) is round-to-nearest with gradual underflow, the state every run of foreign_run ends in
+   as long as foreign_step is the identity (a state with flush-to-zero / another rounding direction has no float instance: MODELERR). *)
+let foreign_of = function
+  | "eigenvalues" -> FEigenvalues | "eigensystem" -> FEigensystem | "eigenvectors" -> FEigenvectors | "qr" -> FQR
+  | "determinant" -> FDeterminant | "inverse" -> FInverse | "invertible" -> FInvertible | "rotation" -> FRotation
+  | "angle" -> FAngle | "spherical" -> FSpherical | "round" -> FRound | "integrate" -> FIntegrate
+  | "gauss_legendre" -> FGaussLegendre | "find_root" -> FFindRoot | "find_minimum" -> FFindMinimum
+  | "interpolation" -> FInterpolation | "special" -> FSpecial | "statistics" -> FStatistics | "sample" -> FSample
+  | o -> raise (Ctor ("MODELERR unknown_foreign_" ^ o))
+
+let handler_inner r =
   hist := false; lms := []; lvs := [];
   let op = word r in
   let op = if op = "hist" then (hist := true; word r) else op in
@@ -252,6 +263,22 @@ let handler r =
     done;
     flush ()
   end
+
+let handler r =
+  try
+  if more r && r.toks.(r.pos) = "amb" then begin
+    ignore (word r);
+    let k = integer r in
+    let calls = List.init k (fun _ -> let name = word r in let len = integer r in
+                                      for _ = 1 to len do ignore (word r) done; foreign_of name) in
+    let start = r.pos in
+    let request (e : fenv) : string =
+      if fenv_diff e fenv_default <> n 0 then raise (Ctor "MODELERR no_float_instance_for_this_control_state");
+      r.pos <- start; Buffer.clear buf; first := true; handler_inner r;
+      let s = Buffer.contents buf in Buffer.clear buf; first := true; s in
+    let ((after, alone), d) = amb_answer fenv_default calls request in
+    put_w after; put_w "||"; put_w alone; put_w "||"; put_w "fp"; put_i 0; put_i 0; put_i (int_of_nat d)
+  end else handler_inner r
   with Ctor s -> Buffer.clear buf; first := true; put_w s
 
 let () = run handler
